@@ -151,7 +151,7 @@ def main(chk):
                     chk.notes['raw_in_semantic_analysis'].append({'script': u.get('text'), 'error': o['cls'], 'msg': o['msg'][:120]})
             continue
         if v['c32']:
-            shape = 'corpus' if u['id'].startswith('c:') else u.get('text', '')[:110]
+            shape = ('corpus ' + u['id'][2:].rsplit('.', 1)[0]) if u['id'].startswith('c:') else u.get('text', '')[:110]
             fmt = c.get('kw', {}).get('time_period_output_format', '')
             chk.violation('raw:%s | %s | fmt=%s folder=%s%s' % (o['cls'], shape, fmt, c.get('folder'), _extreme(c)), '%s: %s' % (v['c32'], o['msg']),
                           {'script': u.get('text'), 'call': {k: c[k] for k in c if k in ('kw', 'folder', 'raw')}, 'outcome': o})
